@@ -1158,3 +1158,65 @@ pub fn single_file(r: &mut Rng, o: GenOpts, max_items: usize) -> Prog {
     let items = g.block(0, max_items);
     Prog { files: vec![FileSrc { name: "top.sv".into(), items }], predefs }
 }
+
+// ----------------------------------------------------------------------------
+// multi-file programs (include graphs)
+
+pub struct MultiGen<'r> {
+    pub g: Gen<'r>,
+    pub files: Vec<FileSrc>,
+    pub max_files: usize,
+}
+
+impl<'r> MultiGen<'r> {
+    /// generate the items of a file; `` `include`` items pull in further files (generated on first use)
+    fn file_items(&mut self, depth: usize, max_items: usize) -> Vec<Item> {
+        let mut items = Vec::new();
+        let n = self.g.r.range(2, max_items);
+        for _ in 0..n {
+            let k = self.g.r.below(100);
+            if k < 22 && depth < 3 {
+                // include: an existing file (same file twice) or a new one
+                let reuse = !self.files.is_empty() && self.g.r.chance(1, 4);
+                let name = if reuse || self.files.len() >= self.max_files {
+                    if self.files.is_empty() {
+                        continue;
+                    }
+                    // only files that are already complete (no cycles): any file generated so far is complete
+                    // except the ones currently being generated, which are not yet in `files`
+                    self.g.r.pick(&self.files).name.clone()
+                } else {
+                    let name = format!("inc{}.svh", self.files.len() + 1 + depth * 10 + self.g.r.below(1000) * 100);
+                    let sub = self.file_items(depth + 1, 5);
+                    self.files.push(FileSrc { name: name.clone(), items: sub });
+                    name
+                };
+                match self.g.r.below(5) {
+                    0 | 1 => items.push(Item::Include { name, style: 0 }),
+                    2 => items.push(Item::Include { name, style: 1 }),
+                    _ => {
+                        // file named through a macro
+                        let m = self.g.fresh("INCF");
+                        let def = MacroDef { name: m.clone(), formals: None, body: Some(vec![Piece::Str(name)]) };
+                        self.g.known.retain(|x| x.name != m);
+                        items.push(Item::Define(def));
+                        items.push(Item::Include { name: m, style: 2 });
+                    }
+                }
+            } else {
+                let mut b = self.g.block(self.g.o.max_depth.saturating_sub(1), 1);
+                items.append(&mut b);
+            }
+        }
+        items
+    }
+}
+
+pub fn multi_file(r: &mut Rng, o: GenOpts, max_files: usize) -> Prog {
+    let g = Gen::new(r, o);
+    let mut mg = MultiGen { g, files: Vec::new(), max_files };
+    let top = mg.file_items(0, 8);
+    let mut files = vec![FileSrc { name: "top.sv".into(), items: top }];
+    files.append(&mut mg.files);
+    Prog { files, predefs: Vec::new() }
+}
